@@ -567,6 +567,9 @@ def sweep(tier):
         spans = token_spans(f)
         for i in range(0, len(spans), 60):
             out.append({'k': 'token', 'tier': tier, 'file': fi, 'spans': spans[i:i + 60]})
+            if f.eol != '\n' or (i // 60) % 3 == 0:
+                # the same damage with pysmi's diagnostic logging switched on (all of it for files with CR or CR LF line ends)
+                out.append({'k': 'token', 'tier': tier, 'file': fi, 'spans': spans[i:i + 60], 'debug': True})
         spots = number_spots(f)
         for i in range(0, len(spots), 12):
             out.append({'k': 'number', 'tier': tier, 'file': fi, 'spots': spots[i:i + 12]})
